@@ -2,6 +2,7 @@ import CedarVerif.Driver.Ops.Core
 import CedarVerif.Driver.Ops.Conf
 import CedarVerif.Driver.Ops.TC
 import CedarVerif.Driver.Ops.Syntax
+import CedarVerif.Driver.Ops.PolicySet
 /-
 Line-protocol driver: one request per line on stdin, one reply per line on stdout.
 Unknown or malformed requests answer `(bad-op)`; the driver never defaults.
@@ -14,7 +15,8 @@ def handlers : List (Sexp → Option String) := [
   Ops.handleCore,
   Ops.handleConf,
   Ops.handleTC,
-  Ops.handleSyntax
+  Ops.handleSyntax,
+  Ops.handlePSet
 ]
 
 def handle (x : Sexp) : String :=
